@@ -34,4 +34,136 @@ def gen_encoding_in():
     yield "EncodingIn.lean", t
 
 
-ALL = [gen_encoding_in]
+
+# ---- the declaration regexes as data -------------------------------------------------------------------------------
+def rx_atoms(src, flags):
+    """(anchored, [atom, ...]) of a pattern of the supported fragment, from Python's own parser; atoms as tuples
+    ('one', cls) | ('rep', cls, min1, many, greedy) | ('gopen',) | ('gclose',); cls as ('lit', c) | ('notLit', c) | ('any',) |
+    ('space',) | ('oneOf', [c...], sp, neg). Raises ValueError outside the fragment."""
+    import re._parser as P
+    from re._constants import (LITERAL, NOT_LITERAL, ANY, IN, CATEGORY, CATEGORY_SPACE, MAX_REPEAT, MIN_REPEAT, SUBPATTERN, AT,
+                               AT_BEGINNING, NEGATE, MAXREPEAT)
+    tree = list(P.parse(src, flags))
+
+    def cls(item):
+        op, av = item
+        if op is LITERAL:
+            return ("lit", av)
+        if op is NOT_LITERAL:
+            return ("notLit", av)
+        if op is ANY:
+            return ("any",)
+        if op is IN:
+            if av == [(CATEGORY, CATEGORY_SPACE)]:
+                return ("space",)
+            neg, lits, sp = False, [], False
+            for k, (o, a) in enumerate(av):
+                if o is NEGATE and k == 0:
+                    neg = True
+                elif o is LITERAL:
+                    lits.append(a)
+                elif o is CATEGORY and a is CATEGORY_SPACE:
+                    sp = True
+                else:
+                    raise ValueError(f"unsupported set member {o} {a}")
+            return ("oneOf", lits, sp, neg)
+        raise ValueError(f"unsupported item {op}")
+
+    def seq(items, top):
+        out = []
+        for k, (op, av) in enumerate(items):
+            if op is AT:
+                raise ValueError("anchor inside the pattern")
+            if op in (MAX_REPEAT, MIN_REPEAT):
+                lo, hi, body = av
+                if len(body) != 1 or lo not in (0, 1) or hi not in (1, MAXREPEAT):
+                    raise ValueError("unsupported repeat")
+                out.append(("rep", cls(body[0]), lo == 1, hi is MAXREPEAT or hi == MAXREPEAT, op is MAX_REPEAT))
+            elif op is SUBPATTERN:
+                g, add, dele, body = av
+                if not top or g != 1 or add or dele:
+                    raise ValueError("unsupported group")
+                out.append(("gopen",))
+                out.extend(seq(body, False))
+                out.append(("gclose",))
+            else:
+                out.append(("one", cls((op, av))))
+        return out
+    anchored = bool(tree) and tree[0] == (AT, AT_BEGINNING)
+    return anchored, seq(tree[1:] if anchored else tree, True)
+
+
+def lean_bool(b):
+    return "true" if b else "false"
+
+
+def lean_cls(c):
+    if c[0] in ("lit", "notLit"):
+        return f".{c[0]} {c[1]}"
+    if c[0] in ("any", "space"):
+        return "." + c[0]
+    return f".oneOf {lean_nat_list(c[1])} {lean_bool(c[2])} {lean_bool(c[3])}"
+
+
+def lean_atom(a):
+    if a[0] == "one":
+        return f".one ({lean_cls(a[1])})"
+    if a[0] == "rep":
+        return f".rep ({lean_cls(a[1])}) {lean_bool(a[2])} {lean_bool(a[3])} {lean_bool(a[4])}"
+    return "." + a[0]
+
+
+def pattern_literals(atoms):
+    out = set()
+    for a in atoms:
+        if a[0] in ("one", "rep"):
+            c = a[1]
+            if c[0] in ("lit", "notLit"):
+                out.add(c[1])
+            elif c[0] == "oneOf":
+                out.update(c[1])
+    return out
+
+
+def gen_encoding_rx():
+    import re
+    from bs4 import dammit
+    from gen_tables import chunked_def
+    pats = {}
+    for name, src in (("Xml", dammit.xml_encoding), ("Html", dammit.html_meta)):
+        b = rx_atoms(src.encode("ascii"), re.I)
+        u = rx_atoms(src, re.I)
+        if b != u:
+            raise RuntimeError(f"bytes and str flavour of {name} parse differently")
+        # the compiled objects bs4 really uses must be these sources with re.I
+        for ty, key in ((bytes, name.lower()), (str, name.lower())):
+            comp = dammit.encoding_res[ty][key]
+            want = src.encode("ascii") if ty is bytes else src
+            if comp.pattern != want or not (comp.flags & re.I) or (comp.flags & (re.M | re.S | re.X)):
+                raise RuntimeError(f"encoding_res[{ty.__name__}][{key}] is not the module-level source with re.I")
+        pats[name] = b
+    allchars = "".join(map(chr, range(0x110000)))
+    space = sorted(ord(ch) for ch in re.compile(r"\s").findall(allchars))
+    lits = sorted(pattern_literals(pats["Xml"][1]) | pattern_literals(pats["Html"][1]))
+    ci = []
+    for l in lits:
+        hits = sorted(ord(ch) for ch in re.compile(re.escape(chr(l)), re.I).findall(allchars))
+        hits = [h for h in hits if h != l]
+        if hits:
+            ci.append((l, hits))
+    t = HEADER + "import BSModel.Model.EncodingRxSyntax\nnamespace BS.Gen\nopen BS.EncodingIn.Rx\n"
+    for name in ("Xml", "Html"):
+        anchored, atoms = pats[name]
+        src = getattr(dammit, "xml_encoding" if name == "Xml" else "html_meta")
+        t += f"/-- bs4.dammit.{'xml_encoding' if name == 'Xml' else 'html_meta'} = {src!r} (re.I; bytes and str flavours parse alike) -/\n"
+        t += f"def c07{name}Anchored : Bool := {lean_bool(anchored)}\n"
+        t += f"def c07{name}Atoms : List Atom := [" + ", ".join(lean_atom(a) for a in atoms) + "]\n"
+    t += "/-- every code point matched by the str pattern `\\s` (live `re`) -/\n"
+    t += f"def c07UnicodeSpace : List Nat := {lean_nat_list(space)}\n"
+    t += "/-- for each literal of the two patterns: the OTHER code points it matches under re.I in a str pattern (live `re`, all of Unicode) -/\n"
+    t += "def c07CiTable : List (Nat × List Nat) := [" + ", ".join(f"({l}, {lean_nat_list(h)})" for l, h in ci) + "]\n"
+    t += "end BS.Gen\n"
+    yield "EncodingRx.lean", t
+
+
+ALL = [gen_encoding_in, gen_encoding_rx]
